@@ -54,6 +54,11 @@ def construct_expression_tree(
     elif all([isinstance(item, str) for item in expression_ast]):
         if expression_ast[0] in LEGAL_NUMERIC_OPERATORS:
             # Probably someone trying to perform numerical operation on constants.
+            if len(expression_ast) != 3:
+                raise SyntaxError(
+                    f"Numerical operators are binary, received - {expression_ast}"
+                )
+
             first_operand = float(expression_ast[1])
             second_operand = float(expression_ast[2])
             node = AnyNode(
@@ -68,6 +73,11 @@ def construct_expression_tree(
 
         function_name = expression_ast[0]
         extracted_function = domain_functions[function_name]
+        if len(expression_ast[1:]) != len(extracted_function.signature):
+            raise SyntaxError(
+                f"The function {function_name} received a wrong number of arguments - {expression_ast}"
+            )
+
         if len(expression_ast) == 1:
             return AnyNode(id=str(extracted_function), value=extracted_function)
 
@@ -81,6 +91,11 @@ def construct_expression_tree(
             },
         )
         return AnyNode(id=str(new_function), value=new_function)
+
+    if len(expression_ast) != 3:
+        raise SyntaxError(
+            f"Numerical expressions are binary, received - {expression_ast}"
+        )
 
     node = AnyNode(
         id=expression_ast[0],
